@@ -287,6 +287,11 @@ def s_C03(sid, canon, intro, ctx):
     parts = intro.split(' AND:')[0].split(';')
     for p in parts:
         if not p or not p.startswith('M'):
+            if p.startswith('Q:') and started:
+                got = sorted(int(v) for v in p[2:].split(',') if v)
+                exp_q = sorted(expect - {z.root.own_sid})
+                if got != exp_q:
+                    out.append(('is_state_active', f'root: is_state_active (recursive) true for {got}, active set at all levels {exp_q}'))
             if p.startswith('R:') and started:
                 d = dict(kv.split('=') for kv in p[2:].split('|') if kv)
                 ar = sorted(int(v) for v in d['ar'].split(',') if v)
@@ -766,3 +771,20 @@ def o_C18(x, ctx):
 
 ORACLES.update({'C17': o_C17, 'C18': o_C18, 'C19': o_C19})
 STATE_ORACLES.update({'C17': s_C17})
+
+
+def s_quiescent(sid, canon, intro, ctx):
+    """model-independent monitor: once an API call has returned nothing is being processed -- no machine object
+    still has its event-processing flag set (a machine left in that state stores every later event and never
+    dispatches it: "wedged")"""
+    out = []
+    f = snapshot_fields(canon)
+    for mid, d in sorted(f['machines'].items()):
+        if d.get('p', '0') != '0':
+            name = [m.name for m in ctx.z.machines() if m.mid == mid]
+            out.append(('wedged', f'machine {name[0] if name else mid} still has its event-processing flag set after the call returned'))
+    return out
+
+
+for _p in ('C04', 'C05', 'C10', 'C11', 'C12'):
+    STATE_ORACLES[_p] = s_quiescent
